@@ -771,6 +771,29 @@ func c11Gen(tier string, rng *rand.Rand, emit func(string)) map[string]interface
 			}
 		}
 	}
+	branch := func(cs []int, tail string) string {
+		var ops []string
+		curReg := 0
+		for _, c := range cs {
+			nxt := 1 + curReg%2 // alternate registers 1 and 2 for the value that goes on; register 3 takes the dropped sibling
+			ops = append(ops, fmt.Sprintf("D %d %d V 1", nxt, c), fmt.Sprintf("D 3 %d W 7", c+500), fmt.Sprintf("r %d", nxt))
+			curReg = nxt
+		}
+		return strings.Join(ops, " ; ") + " ; " + tail
+	}
+	for n := 1; n <= 3; n++ {
+		for _, t := range c11Trees(n, memo) {
+			if c11InnerHandler(t, false) {
+				continue
+			}
+			for _, sc := range []string{branch([]int{1}, "e"), branch([]int{1, 2, 3, 4}, "e ; e"), branch([]int{1, 2, 3, 4, 5, 6, 7, 8, 9}, "e"),
+				branch([]int{1, 2, 3}, "o1 ; u2 ; s") + " ; " + branch([]int{4, 5}, "o0 ; u0 ; s ; e"),
+				branch([]int{3, 2}, "e") + " ; " + branch([]int{1, 1}, "e") + " ; " + branch([]int{4, 5, 6}, "o0 ; u2 ; s")} {
+				raw(t, sc)
+				dag++
+			}
+		}
+	}
 	nDagRandom := nRandom / 5
 	for i := 0; i < nDagRandom; i++ {
 		base := c11Random(rng, 1+rng.Intn(4))
@@ -885,4 +908,6 @@ func c11Gen(tier string, rng *rand.Rand, emit func(string)) map[string]interface
 	}
 }
 
-func init() { register("C11", &Prop{Gen: c11Gen, Run: c11Run, CaseTimeout: 3 * time.Second}) }
+// 10 s: a case needs well under 1 ms of CPU (about 40 ms with the harness squeezed to 1 % of a core); the deadline only has to tell a
+// deadlock (Post to the own unbuffered handler) from a slow machine
+func init() { register("C11", &Prop{Gen: c11Gen, Run: c11Run, CaseTimeout: 10 * time.Second}) }
